@@ -20,6 +20,7 @@ from .c17 import parse_dot, edge_cover, split
 
 NAMES = ["numpy", "jax", "cupy"]
 EXPECTED_BROKEN = {"RevertIsOriginal", "NoForeignEinsum", "SavedIsAnOriginal"}
+EXPECTED_BROKEN_MODES = EXPECTED_BROKEN | {"OptTakesEffectOnManagerAttribute"}
 
 
 def label_to_op(lab):
@@ -40,8 +41,10 @@ def random_program(rng, threads, length):
             ops.append({"ev": "Select", "t": t, "name": rng.choice(NAMES), "loc": rng.random() < 0.5})
         elif r < 0.62:
             ops.append({"ev": "Opt", "t": t})
-        elif r < 0.9:
+        elif r < 0.8:
             ops.append({"ev": "Default", "t": t})
+        elif r < 0.9:
+            ops.append({"ev": rng.choice(["Static", "Dynamic", "Static"]), "t": t})
         else:
             ops.append({"ev": "Call", "t": t})
     return ops
@@ -89,6 +92,14 @@ def run(chk, opts):
     print("EXTENSION-FINDING: plugins.use_default_einsum() restores ONE saved einsum into whatever backend is current: "
           "model PrevScope=global violates %s (shortest witness: select jax; use_opt_einsum; [other thread / other backend] "
           "use_default_einsum -> numpy runs jax's einsum); the real code conforms to that model" % ", ".join(broken))
+    wm = tlc.run("PluginEinsumMC", "PluginEinsumMC_modes.cfg", workers=NCPU, timeout=900, extra=("-continue",))
+    chk.states += wm.distinct
+    chk.transitions += wm.generated
+    chk.notes["asfound_with_dispatch_modes_violates"] = sorted(set(wm.violated))
+    if set(wm.violated) != EXPECTED_BROKEN_MODES:
+        chk.machinery.append("as-found model with dispatch modes violates %s, expected %s" % (sorted(set(wm.violated)), sorted(EXPECTED_BROKEN_MODES)))
+    print("EXTENSION-FINDING: after use_static_dispatch() the manager's own attribute tl.backend.einsum is frozen: a later use_opt_einsum() "
+          "does not reach it (OptTakesEffectOnManagerAttribute violated), while tl.einsum (import-time wrapper) does see the plugin")
     # 1b. unbounded: Apalache discharges an inductive invariant of the repaired scope (behaviours of any length)
     apa = {}
     for name, args in (("init", ["--init=Init", "--inv=IndInv", "--length=0"]), ("step", ["--init=IndInv", "--inv=IndInv", "--length=1"]),
